@@ -200,6 +200,15 @@ CLAIMED = {
         technique='loop-invariant + with-protocol contracts on the real functions, pyvc -> z3; decorator structure by AST obligations',
         design_ref='7/C27',
     ),
+    'C23': dict(
+        text='AsyncFS.read_range opens open_from(url, start, length=n) and returns readexactly(n) with n = end-start(+1 if inclusive); open_from routes length 0 to EmptyReadableStream and forwards url/start/length unchanged otherwise (router likewise); '
+        'GCS and S3 _open_from send Range "bytes=<start>-" / "bytes=<start>-<start+length-1>" (string terms compared with the specification by congruence), S3 maps InvalidRange to UnexpectedEOFError; '
+        'local: _open_from seeks to start and wraps the file in TruncatedReadableBinaryIO(length); TruncatedReadableBinaryIO.read keeps 0 <= offset <= limit and returns min(request, window, file); _ReadableStreamFromBlocking._readexactly (loop invariant) returns exactly n contiguous bytes or raises; '
+        'Azure: _open_from builds the stream with offset=start,length=length; every download_blob request of AzureReadableStream.read starts at the first byte not yet handed out and ends at the end of the window (failed before the fix: commit 23c8b8681), readexactly returns n bytes or raises.',
+        note=COMMON_NOTE + 'Assumed: RFC 7233 range semantics of the GCS/S3 servers, the Azure SDK download_blob(offset, length) contract, Python file read(k) returning min(k, remaining) bytes, aiohttp StreamReader.readexactly. Byte contents are abstract (positions and lengths are tracked); the Azure buffer logic is under a length-level contract only.',
+        technique='contracts on the real methods (with-protocol, loop invariant, string terms), pyvc -> z3',
+        design_ref='7/C23',
+    ),
 }
 
 NOT_YET = 'not yet brought within the verifier\'s reach in this build (planned in DESIGN.md section 7); no claim is made'
